@@ -3,6 +3,7 @@ import ast
 
 from ..core import astutil as A
 from ..core import boolx
+from ..core import match as M
 from ..core.model import ClassInfo, dotted
 
 META = {
@@ -52,9 +53,8 @@ def run(ctx):
     ctx.require(len(pairs) >= 4, f"operator tables passed to DepSet.parse not found ({sorted(pairs)})")
     isb = P.func(CMOD, "_internal_stringify_boolean")
     emit = {}
-    cur = isb.node.body[0]
-    while isinstance(cur, ast.Expr):
-        cur = isb.node.body[isb.node.body.index(cur) + 1]
+    cur = next((s for s in isb.node.body if isinstance(s, ast.If)), None)
+    ctx.require(cur is not None, "_internal_stringify_boolean: node-class dispatch not found")
     while isinstance(cur, ast.If):
         t = cur.test
         clsname = None
@@ -78,30 +78,46 @@ def run(ctx):
     def raises_in(stmts):
         return any(isinstance(x, ast.Raise) and "DepsetParseError" in A.unparse(x) for s in stmts for x in ast.walk(s))
     ifs = [n for n in A.body_walk(parse.node) if isinstance(n, ast.If)]
-    close = [i for i in ifs if A.unparse(i.test) in ("')' == k", "k == ')'")]
+    # the locals of the parser, bound by their role (not by their spelling):
+    #   words = the token iterator, k = the current token, depsets = the stack of open frames (bottom frame = the
+    #   result list), raw = the stack of the open groups' heads (pushed together with a frame)
+    wm = M.one(parse.node, "$words = iter(dep_str.split())")
+    ctx.require(wm is not None, "DepSet.parse: token iterator not found")
+    loops = [(n, m) for n in A.body_walk(parse.node) if isinstance(n, ast.For) for m in [M.pat("for $k in $words:\n    pass").matches(n, wm.env)] if m]
+    ctx.require(len(loops) == 1, "DepSet.parse: token loop not found")
+    loop, E = loops[0][0], dict(loops[0][1].env)
+    sm = M.one(parse.node, "$res = []\n$depsets = [$res]", E)
+    ctx.require(sm is not None, "DepSet.parse: frame stack not found")
+    E = dict(sm.env)
+    rm = M.one(loop, "$depsets.append([])\n$raw.append($k)", E)
+    ctx.require(rm is not None, "DepSet.parse: stack of open group heads not found")
+    E = dict(rm.env)
+    tokv, dep, raw = E["k"], E["depsets"], E["raw"]
+    close = [i for i in ifs if M.pat("')' == $k").matches(i.test, E) or M.pat("$k == ')'").matches(i.test, E)]
     ctx.require(close, "DepSet.parse: ')' arm not found")
     inner = [i for i in close[0].body if isinstance(i, ast.If)]
-    ok = bool(inner) and set(boolx.atoms(inner[0].test)) >= {"depsets[-1]", "raw_conditionals"} and raises_in(inner[0].body) and \
-        boolx.forced_outcome(inner[0].test, {"raw_conditionals": False}) is True and boolx.forced_outcome(inner[0].test, {"depsets[-1]": False}) is True
+    top = f"{dep}[-1]"
+    ok = bool(inner) and set(boolx.atoms(inner[0].test)) >= {top, raw} and raises_in(inner[0].body) and \
+        boolx.forced_outcome(inner[0].test, {raw: False}) is True and boolx.forced_outcome(inner[0].test, {top: False}) is True
     ctx.check("R2", parse, ok, "reject-unmatched-close", "')' with no open group, or closing an empty group, is rejected", node=close[0])
-    opn = [i for i in ifs if "k[-1] == '?'" in A.unparse(i.test) and "k in operators" in A.unparse(i.test)]
+    opn = [i for i in ifs if set(boolx.atoms(i.test)) >= {f"{tokv}[-1] == '?'", f"{tokv} in operators"}]
     ctx.require(opn, "DepSet.parse: operator/conditional arm not found")
-    need_paren = [i for i in opn[0].body if isinstance(i, ast.If) and A.unparse(i.test) == "k2 != '('" and raises_in(i.body)]
+    nxt = M.one(opn[0].body, "$k2 = next($words)", E)  # the token that follows the operator
+    need_paren = [i for i in opn[0].body if nxt is not None and isinstance(i, ast.If) and i.lineno > nxt.node.lineno and M.pat("$k2 != '('").matches(i.test, nxt.env) and raises_in(i.body)]
     ctx.check("R2", parse, bool(need_paren), "reject-missing-open", "an operator or conditional not followed by '(' is rejected", node=opn[0])
-    tr = [n for n in A.body_walk(parse.node) if isinstance(n, ast.Try)]
+    tr = [p for p in A.parents(loop) if isinstance(p, ast.Try) and loop in p.body]
     ctx.require(tr, "DepSet.parse: try block not found")
     hs = {A.unparse(h.type) if h.type is not None else "": h for h in tr[0].handlers}
     ctx.check("R2", parse, "StopIteration" in hs and raises_in(hs["StopIteration"].body), "reject-dangling-operator", "running out of tokens after an operator is rejected")
     ctx.check("R2", parse, "Exception" in hs and raises_in(hs["Exception"].body), "reject-internal-error", "any other parsing error becomes DepsetParseError")
-    final = [i for i in ifs if A.unparse(i.test) == "len(depsets) != 1" and raises_in(i.body)]
+    final = [i for i in ifs if M.pat("len($depsets) != 1").matches(i.test, E) and raises_in(i.body) and i.lineno > tr[0].lineno and tr[0] not in A.parents(i)]
     ctx.check("R2", parse, bool(final), "reject-unclosed", "unclosed groups are rejected after the last token")
-    pipe = [i for i in ifs if A.unparse(i.test) == "'|' in k" and raises_in(i.body)]
+    pipe = [i for i in ifs if M.pat("'|' in $k").matches(i.test, E) and raises_in(i.body)]
     ctx.check("R2", parse, bool(pipe), "reject-stray-pipe", "a stray '|' token is rejected")
     # the USE-conditional arm must reject an empty condition name (a bare '(' group when '' is not an operator)
-    cond_else = close[0].body
     cvar = None
     for t, v, st in A.assignments(parse.node):
-        if isinstance(t, ast.Name) and A.unparse(v) == "raw_conditionals[-1]":
+        if isinstance(t, ast.Name) and M.pat("$raw[-1]").matches(v, E):
             cvar = t.id
     ctx.require(cvar is not None, "DepSet.parse: conditional name variable not found")
     idx0 = [n for n in A.body_walk(parse.node) if isinstance(n, ast.Subscript) and A.unparse(n.value) == cvar and A.try_literal(n.slice) == 0 and isinstance(n.ctx, ast.Load)]
@@ -125,22 +141,29 @@ def run(ctx):
     ctx.require({a_same, a_flag}.issubset(ats), f"evaluate_conditionals: collapse test atoms changed ({ats})")
     ctx.check("R3", ev, a_single in ats, "single-collapse-flag-consulted", "a one-element group is collapsed only if its class says a single element is equivalent to the group",
               "evaluate_conditionals collapses every one-element group: `?? ( x? ( a ) b )` with x off becomes a hard requirement `b`", node=col[0])
+    # the list of evaluated children, bound by its role: filled while iterating over self
+    lm = M.one(ev.node, "$l = []\nfor $_ in self:\n    pass")
+    ctx.require(lm is not None, "evaluate_conditionals: list of evaluated children not found")
+    lv = lm["l"]
     free = {k: False for k in ats}
-    if "l" in free:
-        free["l"] = True  # a non-empty element list, unless a row says otherwise
+    if lv in free:
+        free[lv] = True  # a non-empty element list, unless a row says otherwise
     def outcome(**on):
         env = dict(free)
         env.update(on)
         return boolx.evaluate(test, env)
-    len1 = [k for k in ats if k.replace(" ", "") in ("len(l)==1",)]
-    empty = [k for k in ats if k in ("l",)]
+    len1 = [k for k in ats if k.replace(" ", "") in (f"len({lv})==1",)]
     ctx.check("R3", ev, outcome() is False and outcome(**{a_same: True}) is False and outcome(**{a_flag: True}) is False and outcome(**{a_same: True, a_flag: True}) is True, "flatten-needs-same-kind-and-flag",
               "a group is flattened into its parent only when the parent is of the same kind AND the class allows it", node=col[0])
     if len1 and a_single in ats:
         ctx.check("R3", ev, outcome(**{len1[0]: True}) is False and outcome(**{len1[0]: True, a_single: True}) is True, "single-collapse-guarded", "one-element collapse needs the class flag", node=col[0])
-    ctx.check("R3", ev, A.unparse(col[0].body[0]) == "parent_seq.extend(l)" and A.unparse(col[0].orelse[0]) == "parent_seq.append(self.__class__(*l))", "collapse-arms", "collapsed groups contribute their elements, others a new node of the same class")
+    def contributions(stmts):
+        return [c for c in A.calls(stmts) if isinstance(c.func, ast.Attribute) and A.unparse(c.func.value) == "parent_seq"]
+    arm_yes, arm_no = contributions(col[0].body), contributions(col[0].orelse)
+    ctx.check("R3", ev, len(arm_yes) == 1 and M.pat("parent_seq.extend($l)").matches(arm_yes[0], lm.env) is not None and arm_yes[0]._parent in col[0].body
+              and len(arm_no) == 1 and M.pat("parent_seq.append(self.__class__(*$l))").matches(arm_no[0], lm.env) is not None and arm_no[0]._parent in col[0].orelse, "collapse-arms", "collapsed groups contribute their elements, others a new node of the same class")
     outer = [p for p in A.parents(col[0]) if isinstance(p, ast.If)]
-    ctx.check("R3", ev, bool(outer) and A.unparse(outer[0].test) == "not self._evaluate_wipe_empty or l", "empty-groups-vanish", "a group emptied by conditionals adds nothing (unless its class keeps empty groups)")
+    ctx.check("R3", ev, bool(outer) and M.pat("not self._evaluate_wipe_empty or $l").matches(outer[0].test, lm.env) is not None, "empty-groups-vanish", "a group emptied by conditionals adds nothing (unless its class keeps empty groups)")
 
     def flag(K, name):
         owner, node = P.lookup_attr(K, name)
@@ -154,8 +177,10 @@ def run(ctx):
         f2 = flag(K, "_evaluate_collapse_single")
         ctx.check("R3", K, bool(f2) == SINGLE_OK[cname], f"collapse-single:{cname}={f2}", f"{cname}: a single remaining element {'is' if SINGLE_OK[cname] else 'is NOT'} equivalent to the group")
     # DepSet.parse applies the same single-element rule
-    pc = [i for i in ifs if "len(depsets[-1]) == 1" in A.unparse(i.test)]
-    ctx.check("R3", parse, bool(pc) and "_evaluate_collapse_single" in A.unparse(pc[0].test), "parse-single-collapse-guarded", "the parser replaces a one-element group by its element only for classes where that is an equivalence",
+    pc = [i for i in ifs if M.has(i.test, "len($depsets[-1]) == 1", E)]
+    def names_flag(e):
+        return any((isinstance(n, ast.Attribute) and n.attr == "_evaluate_collapse_single") or A.is_const(n, "_evaluate_collapse_single") for n in ast.walk(e))
+    ctx.check("R3", parse, bool(pc) and names_flag(pc[0].test), "parse-single-collapse-guarded", "the parser replaces a one-element group by its element only for classes where that is an equivalence",
               "DepSet.parse replaces every one-element operator group by its element: `?? ( a )` becomes the hard requirement `a`")
     ctx.floor("R3", 13)
 
@@ -167,8 +192,18 @@ def run(ctx):
               f"Conditional.evaluate_conditionals no longer wraps its payload in an all-of group before evaluating it into the parent: `|| ( x? ( a b ) c )` with x on becomes `|| ( a b c )`", node=ce.node)
     direct = [c for c in A.calls(ce.node) if A.unparse(c.func) in (f"{ce.params()[2]}.append", f"{ce.params()[2]}.extend")]
     ctx.check("R4", ce, not direct, "no-direct-append", "the conditional never appends payload elements to the parent sequence itself")
-    guard = [n for n in A.body_walk(ce.node) if isinstance(n, ast.If) and A.unparse(n.test) == "not self.restriction.match(enabled)"]
-    ctx.check("R4", ce, bool(guard) and isinstance(guard[0].body[0], ast.Return), "inactive-contributes-nothing", "a conditional whose condition does not hold contributes nothing")
+    guard = [n for n in A.body_walk(ce.node) if isinstance(n, ast.If) and M.pat("not self.restriction.match(enabled)").matches(n.test)]
+    def leaves_empty_handed(stmts):
+        # the arm returns (no value) and nothing before that return touches the parent sequence or evaluates anything into it
+        for st in stmts:
+            if isinstance(st, ast.Return):
+                return st.value is None
+            if any(isinstance(n, ast.Name) and n.id == ce.params()[2] for n in ast.walk(st)) or any(A.call_attr(c) == "evaluate_conditionals" for c in A.calls(st)):
+                return False
+            if not isinstance(st, ast.Expr):
+                return False
+        return False
+    ctx.check("R4", ce, bool(guard) and leaves_empty_handed(guard[0].body), "inactive-contributes-nothing", "a conditional whose condition does not hold contributes nothing")
     ctx.floor("R4", 3)
 
 
